@@ -448,6 +448,11 @@ class Pipeline:
 
     def _clear_internal_cache(self) -> None:
         clear_cached_properties(self)
+        # This method is called whenever the pipeline or one of its functions is
+        # modified, after which previously cached results are no longer valid.
+        cache = getattr(self, "cache", None)  # not set yet during `__init__`
+        if cache is not None:
+            cache.clear()
 
     def __call__(self, __output_name__: OUTPUT_TYPE | None = None, /, **kwargs: Any) -> Any:
         """Call the pipeline for a specific return value.
